@@ -14,6 +14,7 @@ INVARIANT EnvironmentRule
 INVARIANT RepsFromEligibleOnly
 INVARIANT GroupsAccounted
 INVARIANT RelabelRule
+INVARIANT ExistingBlocksRule
 PROPERTY NeighboursIrrelevant
 PROPERTY RefreshIsEnvOf
 PROPERTY BlocksUntouched
